@@ -425,8 +425,26 @@ def block_tie_is_numeric(ctx: Ctx, rep: Report, rid: str = "R15.17") -> None:
             t = env[t.id]  # `is_group = isinstance(other, AceGroup)` ... `if is_group:`
         return isinstance(t, ast.Call) and src(t.func) == "isinstance" and len(t.args) == 2 and src(t.args[0]) == other and "AceGroup" in src(t.args[1])
 
-    for br in [x for x in own_nodes(f.node) if isinstance(x, ast.If) and _is_block_test(x.test)]:
-        for r in [y for b in br.body for y in ast.walk(b) if isinstance(y, ast.Return) and y.value is not None]:
+    # the returns that answer for two blocks: in the body of `if isinstance(other, AceGroup)`, or behind a guard that
+    # lets only blocks through (`if not is_group: raise`) - read off the paths on which the block test holds
+    block_returns: List[ast.Return] = [y for br in own_nodes(f.node) if isinstance(br, ast.If) and _is_block_test(br.test) for b in br.body for y in ast.walk(b) if isinstance(y, ast.Return) and y.value is not None]
+    fcfg = ctx.cfg(f)
+    for p_ in function_paths(fcfg):
+        if p_.raises or p_.ret is None:
+            continue
+        holds = False
+        for t_, tr_ in p_.atoms:
+            neg = False
+            while isinstance(t_, ast.UnaryOp) and isinstance(t_.op, ast.Not):
+                neg, t_ = not neg, t_.operand
+            if _is_block_test(t_) and (tr_ != neg):
+                holds = True
+        if holds:
+            for nd_, _lab in p_.nodes:
+                if nd_.kind == "stmt" and isinstance(nd_.ast, ast.Return) and nd_.ast.value is not None and not any(nd_.ast is y for y in block_returns):
+                    block_returns.append(nd_.ast)
+    for br in [None]:
+        for r in block_returns:
             v = deep_resolve(r.value, env)
             if not (isinstance(v, ast.Compare) and len(v.ops) == 1):
                 continue
